@@ -226,7 +226,7 @@ func c08(r *Report) {
 					if _, isFV := st.Addr.(*ssa.FreeVar); !isFV {
 						return false
 					}
-					return anyIn(w.backSlice(st.Val, flowOpt{}), func(v ssa.Value) bool { return v == ssa.Value(cl.Params[0]) })
+					return anyIn(w.backSlice(st.Val, flowOpt{}), func(v ssa.Value) bool { return isParamVal(v, cl.Params[0]) })
 				}
 				if g.PathTo([]ssa.Instruction{g.Entry()}, true, isAppendStore, isReturn) == nil {
 					// and that slice is what WriteSettings receives
@@ -436,7 +436,7 @@ func c08(r *Report) {
 			for _, n := range []string{"(*golang.org/x/net/http2/hpack.Decoder).SetMaxDynamicTableSize", "(*golang.org/x/net/http2/hpack.Encoder).SetMaxDynamicTableSize"} {
 				ok := false
 				for _, c := range plainCalls(ut, n) {
-					if len(ut.Params) > 1 && c.Call.Args[1] == ssa.Value(ut.Params[1]) && c.Block() == ut.Blocks[0] {
+					if len(ut.Params) > 1 && isParamVal(c.Call.Args[1], ut.Params[1]) && c.Block() == ut.Blocks[0] {
 						ok = true
 					}
 				}
